@@ -91,6 +91,7 @@ def check(ctx):
               "per-destination order")
     deferred_requeued(ctx, "T2-drain")
     once_keeps_order(ctx)
+    txqueue_discipline_is_gramstacks(ctx, "GramStack", "T6-inherit")
     so = G.own_method("_serviceOneTxPkt")
 
     def send_may_raise(node):
@@ -192,3 +193,58 @@ def once_keeps_order(ctx):
     ctx.check(ok, "T2-once", f, "serviceTxPktsOnce: a deferred packet is re-queued with the later packets to its destination behind it",
               "re-appending the one deferred packet alone puts it behind the later packets to the same destination: [A:p0, A:p1] with "
               "a transient failure of A becomes [A:p1, A:p0] and p1 goes out first (repro: /verif/repro/c35_once_reorders.py)")
+
+
+TX_METHODS = ("_serviceOneTxPkt", "serviceTxPkts", "serviceTxPktsOnce")
+TX_MUTATORS = ("append", "appendleft", "extend", "extendleft", "insert", "pop", "popleft", "remove", "rotate", "reverse", "clear", "sort")
+
+
+def txqueue_discipline_is_gramstacks(ctx, base, rule):
+    """the order/once-only argument is made on <base>'s transmit methods: a subclass that overrides one of them, or a method
+    elsewhere in the hierarchy that re-arranges .txPkts, is outside that argument"""
+    ctx.rule(rule, "no subclass of %s overrides %s; below %s .txPkts is only appended to (queueing), never popped/rotated/removed "
+             "outside those methods" % (base, "/".join(TX_METHODS), base))
+    B = ctx.cls("stacking", base)
+    subs = B.subclasses(strict=True)
+    ctx.floor(rule + ":subclasses", len(subs), 1)
+    for C in subs:
+        if C.module is not B.module:
+            continue
+        for m in TX_METHODS:
+            ctx.check(not any(isinstance(b, ast.FunctionDef) and b.name == m for b in C.node.body), rule, C.node,
+                      "%s inherits %s.%s" % (C.name, base, m),
+                      "an override can defer, skip or re-order packets on its own terms (a packet deferred without marking its "
+                      "destination blocked lets the next packet to that destination overtake it)")
+    for C in [B] + [c for c in subs if c.module is B.module]:
+        for mn, f in sorted(C.methods.items()):
+            if C is B and mn in TX_METHODS:
+                continue
+            ctx.use(f)
+            for x in ast.walk(f):
+                if isinstance(x, ast.Call) and isinstance(x.func, ast.Attribute) and x.func.attr in TX_MUTATORS and \
+                        src(x.func.value) == "self.txPkts" and x.func.attr not in ("append",):
+                    ctx.bad(rule, x, "%s.%s: %s" % (C.name, mn, src(x)[:60]),
+                            "the transmit queue is re-arranged outside the transmit methods: queue order is what per-destination "
+                            "order is made of")
+
+
+def txqueue_rearranged_only_by_service(ctx, classes, rule):
+    """in the given stack classes .txPkts is popped / rotated / removed from only by the transmit service methods"""
+    ctx.rule(rule, "%s: .txPkts is only appended to outside %s" % ("/".join(classes), "/".join(TX_METHODS)))
+    k = 0
+    for cn in classes:
+        C = ctx.cls("stacking", cn)
+        for mn, f in sorted(C.methods.items()):
+            if not any(isinstance(b, ast.FunctionDef) and b is f for b in C.node.body):
+                continue
+            k += 1
+            if mn in TX_METHODS:
+                continue
+            ctx.use(f)
+            for x in ast.walk(f):
+                if isinstance(x, ast.Call) and isinstance(x.func, ast.Attribute) and x.func.attr in TX_MUTATORS and \
+                        src(x.func.value) == "self.txPkts" and x.func.attr != "append":
+                    ctx.bad(rule, x, "%s.%s: %s" % (cn, mn, src(x)[:60]),
+                            "packets queued for the connections that stay open must keep their queue order: a clean-up that pops and "
+                            "rotates the shared queue re-orders what is left for the other peers")
+    ctx.floor(rule + ":methods", k, 20)
